@@ -71,13 +71,18 @@ Proof.
   rewrite IH. destruct (all_some r); reflexivity.
 Qed.
 
+Lemma map_opt_eq {A B} (f : A -> option B) (l : list A) : map_opt f l = all_some (map f l).
+Proof.
+  induction l as [|a r IH]; simpl; [reflexivity|]. destruct (f a); [|reflexivity]. rewrite IH. reflexivity.
+Qed.
+
 Lemma resolve_args_map (s : string -> string) (fuel : nat) (fr : frames) (d : nat)
   (IH : forall fr d e, resolve fuel (map_frames s fr) d (map_names s e) = option_map (cmap s) (resolve fuel fr d e))
   (args : list expr) :
-  all_some (map (resolve fuel (map_frames s fr) d) (map (map_names s) args))
-  = option_map (map (cmap s)) (all_some (map (resolve fuel fr d) args)).
+  map_opt (resolve fuel (map_frames s fr) d) (map (map_names s) args)
+  = option_map (map (cmap s)) (map_opt (resolve fuel fr d) args).
 Proof.
-  rewrite map_map. rewrite <- all_some_option_map. rewrite map_map. f_equal.
+  rewrite !map_opt_eq. rewrite map_map. rewrite <- all_some_option_map. rewrite map_map. f_equal.
   apply map_ext. intro a. apply IH.
 Qed.
 
@@ -94,28 +99,28 @@ Proof.
     destruct g as [x|c|e1 a|g' args'|ps b|op args'].
     + pose proof (IH fr d (EName x)) as Hg. simpl in Hg. simpl. rewrite Hg, Ha.
       destruct (resolve fuel fr d (EName x)); simpl; [|reflexivity].
-      destruct (all_some (map (resolve fuel fr d) args)); reflexivity.
+      destruct (map_opt (resolve fuel fr d) args); reflexivity.
     + pose proof (IH fr d (EConst c)) as Hg. simpl in Hg. simpl. rewrite Hg, Ha.
       destruct (resolve fuel fr d (EConst c)); simpl; [|reflexivity].
-      destruct (all_some (map (resolve fuel fr d) args)); reflexivity.
+      destruct (map_opt (resolve fuel fr d) args); reflexivity.
     + pose proof (IH fr d (EAttr e1 a)) as Hg. simpl in Hg. simpl. rewrite Hg, Ha.
       destruct (resolve fuel fr d (EAttr e1 a)); simpl; [|reflexivity].
-      destruct (all_some (map (resolve fuel fr d) args)); reflexivity.
+      destruct (map_opt (resolve fuel fr d) args); reflexivity.
     + pose proof (IH fr d (ECall g' args')) as Hg. simpl in Hg. simpl. rewrite Hg, Ha.
       destruct (resolve fuel fr d (ECall g' args')); simpl; [|reflexivity].
-      destruct (all_some (map (resolve fuel fr d) args)); reflexivity.
+      destruct (map_opt (resolve fuel fr d) args); reflexivity.
     + simpl. rewrite <- IH. f_equal. simpl. f_equal.
       rewrite define_all_map. simpl. rewrite !map_map. reflexivity.
     + pose proof (IH fr d (EOp op args')) as Hg. simpl in Hg. simpl. rewrite Hg, Ha.
       destruct (resolve fuel fr d (EOp op args')); simpl; [|reflexivity].
-      destruct (all_some (map (resolve fuel fr d) args)); reflexivity.
+      destruct (map_opt (resolve fuel fr d) args); reflexivity.
   - simpl. rewrite map_length.
     replace (define_all (map s ps) (map BVal (seq d (List.length ps))) [] :: map_frames s fr)
       with (map_frames s (define_all ps (map BVal (seq d (List.length ps))) [] :: fr)).
     + rewrite IH. destruct (resolve fuel _ (d + List.length ps) b); reflexivity.
     + simpl. f_equal. rewrite define_all_map. simpl. rewrite map_map. reflexivity.
   - simpl. rewrite (resolve_args_map s fuel fr d IH args).
-    destruct (all_some (map (resolve fuel fr d) args)); reflexivity.
+    destruct (map_opt (resolve fuel fr d) args); reflexivity.
 Qed.
 
 Lemma cmap_fix (s : string -> string) (c : cexpr) :
@@ -267,12 +272,12 @@ Proof.
     assert (Hgn : no_app g1 = true) by (destruct g1; try exact Hg; discriminate).
     pose proof (IH c1 c2 g1 g2 Hs H Hgn) as Eg. pose proof (Hargs a1 a2 H0 Hb) as Eargs.
     rewrite (same_shape_depth _ _ Hs) in Eg.
-    inversion H; subst; simpl in Hg; try discriminate Hg; simpl; rewrite Eargs, Eg; reflexivity.
+    inversion H; subst; simpl in Hg; try discriminate Hg; simpl; rewrite !map_opt_eq, Eargs, Eg; reflexivity.
   - simpl in Hn. simpl. rewrite H. rewrite (same_shape_depth _ _ Hs).
     assert (Hs' : same_shape (ps1 :: c1) (ps2 :: c2)) by (constructor; assumption).
     pose proof (IH (ps1 :: c1) (ps2 :: c2) b1 b2 Hs' H0 Hn) as Eb. simpl in Eb.
     rewrite (same_shape_depth _ _ Hs) in Eb. rewrite H in Eb. rewrite Eb. reflexivity.
-  - simpl in Hn. simpl. rewrite (Hargs a1 a2 H Hn). reflexivity.
+  - simpl in Hn. simpl. rewrite !map_opt_eq, (Hargs a1 a2 H Hn). reflexivity.
 Qed.
 
 Corollary alpha_static_top (fuel : nat) (q1 q2 : expr) :
